@@ -210,8 +210,33 @@ def replay_playback(fi, repo="/repo"):
         shutil.rmtree(scratch, ignore_errors=True)
 
 
-FINDERS = {"z80": z80_finder, "contention": contention_finder}
-VERUS_FINDERS = {("ctl", "contention_clocks"): "contention"}
+def driving_finder(pid, failure, repo, seed):
+    """C16: the same scenario under different host drivings (frames per call, max speed, breakpoint
+    stop/resume, sound on/off and drained or not) compared natively with one frame per call"""
+    import re, shutil
+    scratch = os.path.join(os.environ.get("VERIF_SCRATCH", "/var/tmp"), "vp-replay-%s-%d" % (pid, os.getpid()))
+    try:
+        r = subprocess.run([sys.executable, os.path.join(VERIF, "kani", "inject.py"), scratch, "--repo", repo,
+                            "--no-lock-bump"], capture_output=True, text=True)
+        if r.returncode != 0:
+            return None
+        cmd = ["cargo", "test", "--offline", "-q", "-p", "rustzx-test", "--test", "verif_driving", "--", "--nocapture"]
+        p = subprocess.run(cmd, cwd=scratch, env=dict(os.environ, CARGO_NET_OFFLINE="true"), capture_output=True, text=True, timeout=1500)
+        ms = re.findall(r"^MISMATCH .*$", p.stdout, re.M)
+        if not ms:
+            return None
+        return dict(kind="driving", record=ms[0], all=ms[:8],
+                    replay_cmd="python3 %s/kani/inject.py /var/tmp/vp-replay-c16 --no-lock-bump >/dev/null && cd /var/tmp/vp-replay-c16 && "
+                               "cargo test --offline -q -p rustzx-test --test verif_driving -- --nocapture; rc=$?; rm -rf /var/tmp/vp-replay-c16; test $rc -eq 0" % VERIF)
+    finally:
+        shutil.rmtree(scratch, ignore_errors=True)
+
+
+FINDERS = {"z80": z80_finder, "contention": contention_finder, "driving": driving_finder}
+VERUS_FINDERS = {("ctl", "contention_clocks"): "contention",
+                 ("ctl", "emulate_frames"): "driving", ("ctl", "reset_frame_counter"): "driving",
+                 ("ctl", "take_events"): "driving", ("ctl", "take_last_emulation_error"): "driving",
+                 ("ctl", "process_fast_load_event"): "driving", ("ctl", "take"): "driving", ("mixer", "pop"): "driving"}
 
 
 def find_input(pid, failure, repo, seed):
